@@ -247,12 +247,12 @@ def run(r) -> None:
                         for ms in SETS:
                             cases.append(dict(dim=dim, kernel=kernel, dtype=dt, dx=dx, ncomp=ncomp, mset=ms, seed=r.seed))
     r.run_cases("adjoint-basis", "adjoint", cases)
-    acc = [dict(dim=dim, kernel=k, dtype=dt, dx=lagcomm.DXS[0], ncomp=nc, depth=3 if quick else 4)
+    acc = [dict(dim=dim, kernel=k, dtype=dt, dx=lagcomm.DXS[0], ncomp=nc, depth=3 if quick else 6)
            for dim in (2, 3) for k in ("cosine", "peskin") for dt in ("float64", "float32") for nc in (1, dim)]
     r.run_cases("accumulation-bfs", "accumulate", acc)
     seqs = [dict(dim=dim, kernel=k, dtype=dt, ncomp=nc, dx_order=list(o)) for dim in (2, 3) for k in ("cosine", "peskin") for dt in ("float64", "float32") for nc in (1, dim)
             for o in itertools.permutations(lagcomm.DXS, 2)]
     r.run_cases("construction-sequences", "sequence", seqs)
-    r.bounds = {"marker_sets": SETS, "batch": lagcomm.N_BATCH, "dx": lagcomm.DXS[:1] if quick else lagcomm.DXS, "components": "1 and dim", "history_depth": 3 if quick else 4}
+    r.bounds = {"marker_sets": SETS, "batch": lagcomm.N_BATCH, "dx": lagcomm.DXS[:1] if quick else lagcomm.DXS, "components": "1 and dim", "history_depth": 3 if quick else 6}
     r.extra["rule"] = "adjoint: one state per unit impulse (cell x component) and per unit force (marker x component); accumulation: BFS states = bytes of the target field"
     r.assumptions = ["numba closures (fastmath) driven directly; entries compared to 16 eps"]
